@@ -1305,7 +1305,7 @@ impl Prop for C17 {
         "C17"
     }
     fn rule(&self) -> &'static str {
-        "(a) generated .debug_cu_index and .debug_tu_index pairs (versions 2 and 5, every non-empty subset and rotation of the version's section-kind columns, 0-6 units, slot counts the smallest power of two above the unit count or twice that - i.e. up to full-minus-one - and 0, keys that share the primary hash or both hashes with an earlier key) placed by the format's open-addressing rule, with per-unit contributions appended to shared package sections: find(key) = model row for every present key and None for 12 absent keys incl. ones that walk occupied chains, sections(row) = the model's (section, offset, size) list, rows 0 and count+1 are errors, and DwarfPackage::find_cu/find_tu/cu_sections/tu_sections return exactly the unit's byte ranges of every section kind (location list sections via lookup_offset_id), the package's string section and the parent's .debug_addr/.debug_ranges; keys of one index are absent from the other; (b) .debug_aranges with 1-3 sets x 32/64-bit x address size 1/2/4/8 with header padding, interior (0,0) tuples, zero-address and tombstone tuples, with and without terminator: headers and entries (cooked and raw) equal the model; (c) .debug_pubnames/.debug_pubtypes with 1-3 sets in both formats: exactly the (unit, die offset, name) triples; (d) .debug_str_offsets / .debug_addr lookups at generated bases for both formats / four address sizes = table[base + index], past-the-end is an error; (e) generated .debug_names indexes (both formats, 1-3 CUs, 0-2 local and foreign type units, bucket counts 0/1/2/3/5/8, 0-8 names with genuine hash collisions, 1-4 abbreviations over every legal (index, form) pairing incl. parent by ref4 or flag_present, 1-3 entries per name, optional augmentation string and a leading empty index): header fields, unit tables, names(), string offsets and strings, every entry's offset/code/tag/attributes and the compile_unit/type_unit/die_offset/parent/type_hash accessors, name_entry(offset), find_by_bucket for every bucket and find_by_hash for every present hash plus same-bucket and random absent hashes all equal the model; case_folding_djb_hash equals a reference DJB hash on ASCII, and on non-ASCII names through a table of 72 simple-case-folding pairs across scripts (incl. letters whose folding is not their lowercase form and letters that only have a full or Turkic folding); (f) Dwarf::load, DwarfSections::load/borrow, load_sup and DwarfPackageSections::load with a loader that returns a buffer tagged with the requested section: every field holds its own section's buffer, lookup_offset_id attributes every buffer to its section, Section::id/section_name/dwo_name agree. Non-trivial = an index with a collision chain and an absent key probing an occupied slot, a 64-bit or null-tuple aranges set, a 64-bit name set; distinct by choice string."
+        "(a) generated .debug_cu_index and .debug_tu_index pairs (versions 2 and 5, every non-empty subset and rotation of the version's section-kind columns, 0-6 units, slot counts the smallest power of two above the unit count or twice that - i.e. up to full-minus-one - and 0, keys that share the primary hash or both hashes with an earlier key) placed by the format's open-addressing rule, with per-unit contributions appended to shared package sections: find(key) = model row for every present key and None for 12 absent keys incl. ones that walk occupied chains, sections(row) = the model's (section, offset, size) list, rows 0 and count+1 are errors, and DwarfPackage::find_cu/find_tu/cu_sections/tu_sections return exactly the unit's byte ranges of every section kind (location list sections via lookup_offset_id), the package's string section and the parent's .debug_addr/.debug_ranges; keys of one index are absent from the other; (b) .debug_aranges with 1-3 sets x 32/64-bit x address size 1/2/4/8 with header padding, interior (0,0) tuples, zero-address and tombstone tuples, with and without terminator: headers and entries (cooked and raw) equal the model; (c) .debug_pubnames/.debug_pubtypes with 1-3 sets in both formats: exactly the (unit, die offset, name) triples; (d) .debug_str_offsets / .debug_addr lookups at generated bases for both formats / four address sizes = table[base + index], past-the-end is an error; (e) generated .debug_names indexes (both formats, 1-3 CUs, 0-2 local and foreign type units, bucket counts 0/1/2/3/5/8, 0-8 names with genuine hash collisions, 1-4 abbreviations over every legal (index, form) pairing incl. parent by ref4 or flag_present, 1-3 entries per name, optional augmentation string and a leading empty index): header fields, unit tables, names(), string offsets and strings, every entry's offset/code/tag/attributes and the compile_unit/type_unit/die_offset/parent/type_hash accessors, name_entry(offset), find_by_bucket for every bucket and find_by_hash for every present hash plus same-bucket and random absent hashes all equal the model; case_folding_djb_hash equals a reference DJB hash on ASCII, and on non-ASCII names through a table of 72 simple-case-folding pairs across scripts (incl. letters whose folding is not their lowercase form and letters that only have a full or Turkic folding); (f) Dwarf::load, DwarfSections::load/borrow, load_sup and DwarfPackageSections::load with a loader that returns a buffer tagged with the requested section: every field holds its own section's buffer, lookup_offset_id attributes every buffer to its section, Section::id/section_name/dwo_name agree. Non-trivial = an index with a collision chain and an absent key probing an occupied slot, a 64-bit or null-tuple aranges set, a 64-bit name set; distinct by choice string. Later additions: .debug_addr sections made of several sets (headers(): offset, length, encoding, entries, indexed lookup from the scanned base); ArangeHeader::offset and DebugAranges::header(offset); the parsed abbreviation table and counts of a name index; the buffers Dwarf::borrow hands out; indexed strings of version 5 split units without a string-offsets base; std Iterator views."
     }
     fn assumptions(&self) -> Vec<&'static str> {
         vec![
